@@ -9,7 +9,8 @@ BUDGET = {"quick": 1600, "thorough": 200000}
 RULE = ("scenario = random history of 5-40 operations on a scheduler with or without timezone: the six scheduling calls with valid "
         "and invalid arguments (wrong awareness, stop <= start, duplicate times, wrong timing type, list for cyclic), delete_job on "
         "registered / already deleted / retired jobs, delete_jobs and get_jobs with tag queries, jobs, exec_jobs (forced or not) and "
-        "clock advances; the sets returned by jobs/get_jobs are mutated (clear, add) right after being handed out; Spec after every "
+        "clock advances; in 25% the first 1-3 jobs are created directly and handed to Scheduler(jobs=<set or list>) and the caller "
+        "later clears / shrinks / grows that very collection; the sets returned by jobs/get_jobs are mutated (clear, add) right after being handed out; Spec after every "
         "op: registered set = created - deleted - retired (ghost bookkeeping by the harness), rejected calls register nothing, "
         "delete_job of an unregistered job raises SchedulerError and changes nothing, delete_jobs returns the number removed; "
         "non-trivial = history containing at least one rejected call, one failed delete and one retirement or tag deletion")
@@ -45,9 +46,25 @@ def scenarios(rng, n, tier):
         scn = {"tz": tz, "max_exec": rng.choice([0, 0, 1, 2]), "prio": 0, "clock0": clock, "ops": [], "mutate_snapshots": True}
         nk = 0
         periods = []
+        n_ctor = rng.randint(1, 3) if rng.random() < 0.25 else 0
+        if n_ctor:
+            scn["ctor_kind"] = rng.choice(["set", "set", "list"])
         for _ in range(rng.randint(5, 40)):
             c = rng.random()
-            if c < 0.3 or nk == 0:
+            if nk < n_ctor:
+                # jobs created directly and handed to Scheduler(jobs=...)
+                o, p = scen.gen_job(rng, tz, clock, {"calls": [0, 1, 2, 3, 4], "p_limit": 0.5, "p_stop": 0.0, "p_start": 0.0})
+                o.pop("start", None)
+                o.pop("stop", None)
+                o["payload"] = nk + 1
+                o["ctor"] = True
+                o["is_list"] = True
+                scn["ops"].append(o)
+                periods.append(p)
+                nk += 1
+            elif n_ctor and c < 0.08:
+                scn["ops"].append({"op": "mutate", "what": "ctor_arg", "how": rng.choice(["clear", "discard", "add_all"])})
+            elif c < 0.3 or nk == 0:
                 if rng.random() < 0.25:
                     scn["ops"].append(bad_sched(rng, tz, None))
                     scn["ops"][-1].pop("clock")
@@ -166,6 +183,8 @@ def specs(r):
                 qs.append((f"spec eq {ob['jobs'].get(k, (0, 0, 0, 0, 1, 0))[4]} 0", {"what": "job vanished although it has attempts remaining", "key": k, "op": i}))
             if res[0] != "c":
                 qs.append(("spec eq 0 1", {"what": "exec_jobs raised", "op": i, "exc": ob.get("exc")}))
+        elif o["op"] == "mutate":
+            qs.append((f"spec eq {1 if now == before else 0} 1", {"what": "constructor_argument_mutation_has_no_effect", "op": i, "how": o.get("how")}))
         elif o["op"] in ("get", "jobs"):
             q = set(o.get("tags") or []) if o["op"] == "get" else set()
             sel = sorted(k for k in before if (not q) or ((q & tags[k]) if o.get("any") else q <= tags[k]))
@@ -189,6 +208,10 @@ def classes(r):
         cl.append(f"op:{o['op']}:{res[0]}")
         if o["op"] == "sch":
             cl.append(f"call:{o['call']}")
+            if o.get("ctor"):
+                cl.append("via:constructor:" + r["scn"].get("ctor_kind", "set"))
+        if o["op"] == "mutate":
+            cl.append("mutate:ctor_arg:" + o.get("how", ""))
     return sorted(set(cl))
 
 
